@@ -2758,3 +2758,185 @@ mod tests {
         )
     }
 }
+
+/// Verification hooks (feature `pasfmt_verif`): thin forwarding wrappers, no logic.
+#[cfg(feature = "pasfmt_verif")]
+pub mod verif_hooks_lexer {
+    use super::*;
+
+    /// (whitespace, end, type, in_asm after, prev_real_token after, is_first after)
+    pub type Step = (usize, usize, RawTokenType, bool, Option<RawTokenType>, bool);
+
+    pub fn step(
+        input: &str,
+        is_first: bool,
+        in_asm: bool,
+        prev_real_token: Option<RawTokenType>,
+    ) -> Option<Step> {
+        let mut st = LexState {
+            is_first,
+            in_asm,
+            prev_real_token,
+        };
+        let (remaining, tok) = whitespace_and_token(input, &mut st)?;
+        debug_assert_eq!(remaining.len() + tok.token_content.len(), input.len());
+        Some((
+            tok.whitespace_count,
+            tok.token_content.len(),
+            tok.token_type,
+            st.in_asm,
+            st.prev_real_token,
+            st.is_first,
+        ))
+    }
+
+    macro_rules! sub_lexers {
+        ($($name: ident),* $(,)?) => {
+            $(
+                /// Calls the sub-lexer of the same name; returns (end, type, in_asm after).
+                pub fn $name(
+                    input: &str,
+                    offset: usize,
+                    is_first: bool,
+                    in_asm: bool,
+                    prev_real_token: Option<RawTokenType>,
+                ) -> (usize, RawTokenType, bool) {
+                    let mut st = LexState { is_first, in_asm, prev_real_token };
+                    let r = super::$name(LexArgs { input, offset, lex_state: &mut st });
+                    (r.0, r.1, st.in_asm)
+                }
+            )*
+
+            pub const SUB_LEXER_NAMES: &[&str] = &[$(stringify!($name)),*];
+
+            fn lexer_fn_index(f: LexerFn) -> usize {
+                let fns: &[LexerFn] = &[$(super::$name),*];
+                let mut i = 0;
+                while i < fns.len() {
+                    if fns[i] as usize == f as usize {
+                        return i;
+                    }
+                    i += 1;
+                }
+                usize::MAX
+            }
+        };
+    }
+
+    sub_lexers!(
+        l_paren,
+        l_brace,
+        slash,
+        colon,
+        l_angle,
+        r_angle,
+        dot,
+        plus,
+        minus,
+        star,
+        comma,
+        semicolon,
+        equal,
+        caret,
+        address_of,
+        l_brack,
+        r_brack,
+        r_paren,
+        text_literal,
+        ampersand,
+        binary_number_literal,
+        hex_number_literal,
+        dec_number_literal,
+        identifier_or_keyword,
+        identifier,
+        unicode_identifier,
+        unknown,
+        asm_label,
+        asm_text_literal,
+        asm_number_literal,
+        asm_identifier,
+        line_comment,
+        block_comment,
+        block_comment_alt,
+        compiler_directive_or_comment,
+        compiler_directive_or_comment_alt,
+    );
+
+    /// Index into [SUB_LEXER_NAMES] of the sub-lexer the dispatch table selects for `byte`.
+    pub fn lexer_fn_id(asm: bool, byte: u8) -> usize {
+        let f = if asm {
+            ASM_LEXER_MAP[byte as usize]
+        } else {
+            LEXER_MAP[byte as usize]
+        };
+        lexer_fn_index(f)
+    }
+
+    pub fn find_identifier_end(input: &str, offset: usize) -> usize {
+        super::find_identifier_end(input, offset)
+    }
+
+    pub fn find_identifier_end_generic(input: &str, offset: usize) -> usize {
+        super::find_identifier_end_generic(input, offset)
+    }
+
+    /// # Safety
+    /// callers must ensure avx2 intrinsics are supported.
+    #[cfg(target_arch = "x86_64")]
+    pub unsafe fn find_identifier_end_avx2(input: &str, offset: usize) -> usize {
+        unsafe { super::find_identifier_end_avx2(input, offset) }
+    }
+
+    pub fn get_word_token_type(input: &str) -> RawTokenType {
+        super::get_word_token_type(input)
+    }
+
+    pub fn keywords() -> &'static [(&'static str, RawTokenType)] {
+        &KEYWORDS
+    }
+
+    pub fn count_leading_whitespace(input: &str) -> usize {
+        super::count_leading_whitespace(input)
+    }
+
+    pub fn eof(input: &str) -> (usize, usize) {
+        let (remaining, tok) = super::eof(input);
+        (tok.whitespace_count, remaining.len())
+    }
+
+    pub fn conditional_directive_type(
+        input: &str,
+        offset: usize,
+    ) -> (usize, Option<ConditionalDirectiveKind>) {
+        super::conditional_directive_type(input, offset)
+    }
+
+    pub fn consume_to_eof(input: &str, token_type: RawTokenType) -> (usize, RawTokenType) {
+        super::consume_to_eof(input, token_type)
+    }
+
+    pub fn compiler_directive(
+        input: &str,
+        offset: usize,
+        paren_star: bool,
+    ) -> (usize, RawTokenType) {
+        let mut st = LexState {
+            is_first: false,
+            in_asm: false,
+            prev_real_token: None,
+        };
+        let kind = if paren_star {
+            BlockCommentKind::ParenStar
+        } else {
+            BlockCommentKind::Brace
+        };
+        super::compiler_directive(
+            LexArgs {
+                input,
+                offset,
+                lex_state: &mut st,
+            },
+            kind,
+        )
+    }
+}
